@@ -23,6 +23,7 @@ template <class Cfg> struct SrcStore<Cfg, false>
     SrcStore(int fw, int fh) : b(fw, fh) {}
     using view_t = typename Buf<px>::cview_t;
     view_t view() { return b.cview(); }
+    auto mview() -> decltype(b.view()) { return b.view(); }      // mutable view of the same pixels (in-place calls)
     void set(int x, int y, int c, typename gil::channel_type<px>::type v) { b.view()(x, y)[c] = v; }
     bool intact() { return b.g.intact(); }
 };
@@ -43,6 +44,7 @@ template <class Cfg> struct SrcStore<Cfg, true>
         vh::GuardBuf& p = c == 0 ? p0 : c == 1 ? p1 : p2;
         reinterpret_cast<ch*>(p.data())[size_t(y) * fw + x] = v;
     }
+    view_t mview() { return view(); }
     bool intact() { return p0.intact() && p1.intact() && p2.intact(); }
 };
 
@@ -82,6 +84,9 @@ template <class Cfg> struct Runner
     template <class SV, class K, class DV> static void call(std::false_type, int fn, SV const& s, K const& k, DV const& d, boundary_option o) { call_dyn<Cfg>(fn, s, k, d, o); }
 
     // one shardable unit = (kernel form, size, centre, w, h): every fn x option x content
+    template <class F, class SVw> static void in_place(F&, Content const&, SVw const&, std::false_type) {}
+    template <class F, class SVw> static void in_place(F& one, Content const& ct, SVw const& sv, std::true_type) { one(ct, sv, true); }
+
     template <class Kernel, bool Fixed>
     void unit(Kernel const& ker, std::vector<double> const& taps, int ks, int cc, int w, int h)
     {
@@ -114,8 +119,9 @@ template <class Cfg> struct Runner
                 auto sv = gil::subimage_view(full, ox, oy, w, h);
                 auto dv = dst.view();
                 const std::vector<Content> contents = all_contents(-ox, FW - ox, -oy, FH - oy, NC);
-                for (Content const& ct : contents)
-                {
+                // one content, one destination: a separate guarded destination, or (alias) the source view itself — the
+                // expectation is always computed from the shadow copy F of the ORIGINAL source values
+                auto one = [&](Content const& ct, auto const& dvx, bool alias) {
                     double maxabs = 0;
                     for (int y = 0; y < FH; ++y)
                         for (int x = 0; x < FW; ++x)
@@ -129,9 +135,10 @@ template <class Cfg> struct Runner
                             }
                     for (int y = 0; y < h; ++y)
                         for (int x = 0; x < w; ++x)
-                            for (int c = 0; c < NC; ++c) dv(x, y)[c] = dst_ch(Cfg::sentinel());
+                            for (int c = 0; c < NC; ++c) if (!alias) dvx(x, y)[c] = dst_ch(Cfg::sentinel());
                     // ---- the real code
-                    call(std::integral_constant<bool, Fixed>(), fn, sv, ker, dv, opt);
+                    call(std::integral_constant<bool, Fixed>(), fn, sv, ker, dvx, opt);
+                    if (alias) ++ctx.witness["in_place_calls"];
                     ++ctx.evaluations;
                     const bool nontriv = w > 0 && h > 0 && ks > 1;
                     if (nontriv) ++ctx.nontrivial;
@@ -149,7 +156,7 @@ template <class Cfg> struct Runner
                             {
                                 double exp;
                                 bool exact = !Cfg::is_float;
-                                if (border && opt == boundary_option::output_ignore) { exp = double(dst_ch(Cfg::sentinel())); exact = true; ++borders; }
+                                if (border && opt == boundary_option::output_ignore) { exp = alias ? Fat(x, y, c) : double(dst_ch(Cfg::sentinel())); exact = true; ++borders; }
                                 else if (border && opt == boundary_option::output_zero) { exp = 0; exact = true; ++borders; }
                                 else
                                 {
@@ -170,7 +177,7 @@ template <class Cfg> struct Runner
                                         exp += s * et[k];
                                     }
                                 }
-                                double got = double(dv(x, y)[c]);
+                                double got = double(dvx(x, y)[c]);
                                 bool ok = exact ? (got == exp) : (std::fabs(got - exp) <= tol);
                                 if (!ok)
                                 {
@@ -180,7 +187,7 @@ template <class Cfg> struct Runner
                             }
                         }
                     std::string id;
-                    auto mkid = [&]() { if (id.empty()) id = vh::S() << ubase << "/" << FN_NAME[fn] << "/" << opt_name(opt) << "/" << ct.name(); return id; };
+                    auto mkid = [&]() { if (id.empty()) id = vh::S() << ubase << "/" << FN_NAME[fn] << "/" << opt_name(opt) << "/" << ct.name() << (alias ? "/in-place" : ""); return id; };
                     if (bad)
                     {
                         ++fails_here;
@@ -206,7 +213,13 @@ template <class Cfg> struct Runner
                     ++ctx.witness[Cfg::is_float ? "tolerance_compared" : "exactly_compared"];
                     if (nontriv && ct.kind == RAMP && w > L && h > 0 && opt == boundary_option::extend_zero)
                         ctx.sample(vh::S() << mkid() << ": dst(" << (axis == 0 ? L : 0) << "," << (axis == 1 && h > L ? L : 0) << ")[0]="
-                                           << double(dv(axis == 0 ? L : 0, (axis == 1 && h > L) ? L : 0)[0]));
+                                           << double(dvx(axis == 0 ? L : 0, (axis == 1 && h > L) ? L : 0)[0]));
+                };
+                for (Content const& ct : contents)
+                {
+                    one(ct, dv, false);
+                    if (fails_here >= 64) break;
+                    in_place(one, ct, gil::subimage_view(store.mview(), ox, oy, w, h), std::integral_constant<bool, (std::is_same<typename Cfg::src_px, typename Cfg::dst_px>::value && !Cfg::planar_src)>());
                     if (fails_here >= 64) break;
                 }
             }
